@@ -2944,6 +2944,17 @@ int x509_exts_check(const uint8_t *exts, size_t extslen, int cert_type,
 		}
 	}
 
+	// a certificate used as an issuer must assert basicConstraints cA=TRUE (RFC 5280 6.1.4 (k))
+	switch (cert_type) {
+	case X509_cert_ca:
+	case X509_cert_root_ca:
+		if (ca != 1) {
+			error_print();
+			return -1;
+		}
+		break;
+	}
+
 	return 1;
 }
 
